@@ -36,10 +36,10 @@ def Agrees (P : Parsers ρ σ) (c : Conn) : List Seg → List Seg → List DataP
   | accC, accS, d :: ds =>
     if d.payload.isEmpty then Agrees P c accC accS ds
     else if d.fromClient then
-      P.request (fullData (accC ++ [⟨d.seq, d.payload⟩])) = P.request (stream c.isnC (accC ++ [⟨d.seq, d.payload⟩])) ∧
+      P.request (fullData (some c.isnC) (accC ++ [⟨d.seq, d.payload⟩])) = P.request (stream c.isnC (accC ++ [⟨d.seq, d.payload⟩])) ∧
       Agrees P c (accC ++ [⟨d.seq, d.payload⟩]) accS ds
     else
-      P.response (fullData (accS ++ [⟨d.seq, d.payload⟩])) = P.response (stream c.isnS (accS ++ [⟨d.seq, d.payload⟩])) ∧
+      P.response (fullData (some c.isnS) (accS ++ [⟨d.seq, d.payload⟩])) = P.response (stream c.isnS (accS ++ [⟨d.seq, d.payload⟩])) ∧
       Agrees P c accC (accS ++ [⟨d.seq, d.payload⟩]) ds
 
 def PlainFlags (ds : List DataPkt) : Prop :=
@@ -51,8 +51,9 @@ structure Rel (c : Conn) (m : FlowMap) (st : St) : Prop where
   active : ¬ (st.doneC = true ∧ st.doneS = true) → ∃ f, m.get c.client = some f ∧
     f.clientIp = c.client.srcIp ∧ f.clientPort = c.client.srcPort ∧
     f.serverIp = c.client.dstIp ∧ f.serverPort = c.client.dstPort ∧
+    f.clientIsn = c.isnC ∧ f.serverIsn = some c.isnS ∧
     f.clientParsed = st.doneC ∧ f.serverParsed = st.doneS ∧
-    (st.doneC = false → f.clientData = ⟨c.isnC, []⟩ :: st.segsC) ∧
+    (st.doneC = false → f.clientData = ⟨wadd c.isnC 1, []⟩ :: st.segsC) ∧
     (st.doneS = false → f.serverData = st.segsS)
 
 theorem hasComplete_of_request (P : Parsers ρ σ) (hm : MinLen P) (d : Bytes) (r : ρ) (h : P.request d = some r) :
@@ -73,28 +74,28 @@ theorem hasComplete_of_response (P : Parsers ρ σ) (hm : MinLen P) (d : Bytes) 
 theorem clientBranch_eval (P : Parsers ρ σ) (hm : MinLen P) (f : TcpFlow) (seg : Seg)
     (hp : f.clientParsed = false) (hcap : totalLen (f.clientData ++ [seg]) ≤ maxBufferedHeadBytes) :
     clientBranch P f seg =
-      match P.request (fullData (f.clientData ++ [seg])) with
+      match P.request (fullData (some f.clientIsn) (f.clientData ++ [seg])) with
       | some r => ({ f with clientData := f.clientData ++ [seg], clientParsed := true }, some r)
       | none => ({ f with clientData := f.clientData ++ [seg] }, none) := by
   unfold clientBranch
-  have h1 : ¬ (fullData (f.clientData ++ [seg])).length > maxBufferedHeadBytes := by
-    rw [fullData_length]; omega
+  have h1 : ¬ (fullData (some f.clientIsn) (f.clientData ++ [seg])).length > maxBufferedHeadBytes := by
+    have := fullData_length_le (some f.clientIsn) (f.clientData ++ [seg]); omega
   simp only [hp, Bool.false_eq_true, if_false, h1]
-  cases hr : P.request (fullData (f.clientData ++ [seg])) with
+  cases hr : P.request (fullData (some f.clientIsn) (f.clientData ++ [seg])) with
   | some r => simp [hasComplete_of_request P hm _ r hr]
   | none => simp
 
 theorem serverBranch_eval (P : Parsers ρ σ) (hm : MinLen P) (f : TcpFlow) (seg : Seg)
     (hp : f.serverParsed = false) (hcap : totalLen (f.serverData ++ [seg]) ≤ maxBufferedHeadBytes) :
     serverBranch P f seg =
-      match P.response (fullData (f.serverData ++ [seg])) with
+      match P.response (fullData f.serverIsn (f.serverData ++ [seg])) with
       | some r => ({ f with serverData := f.serverData ++ [seg], serverParsed := true }, some r)
       | none => ({ f with serverData := f.serverData ++ [seg] }, none) := by
   unfold serverBranch
-  have h1 : ¬ (fullData (f.serverData ++ [seg])).length > maxBufferedHeadBytes := by
-    rw [fullData_length]; omega
+  have h1 : ¬ (fullData f.serverIsn (f.serverData ++ [seg])).length > maxBufferedHeadBytes := by
+    have := fullData_length_le f.serverIsn (f.serverData ++ [seg]); omega
   simp only [hp, Bool.false_eq_true, if_false, h1]
-  cases hr : P.response (fullData (f.serverData ++ [seg])) with
+  cases hr : P.response (fullData f.serverIsn (f.serverData ++ [seg])) with
   | some r => simp [hasComplete_of_response P hm _ r hr]
   | none => simp
 
@@ -155,12 +156,13 @@ theorem rel_set (c : Conn) (m : FlowMap) (st : St) (f : TcpFlow) (hne : c.client
     (hnd : ¬ (st.doneC = true ∧ st.doneS = true))
     (e1 : f.clientIp = c.client.srcIp) (e2 : f.clientPort = c.client.srcPort)
     (e3 : f.serverIp = c.client.dstIp) (e4 : f.serverPort = c.client.dstPort)
+    (i1 : f.clientIsn = c.isnC) (i2 : f.serverIsn = some c.isnS)
     (p1 : f.clientParsed = st.doneC) (p2 : f.serverParsed = st.doneS)
-    (d1 : st.doneC = false → f.clientData = ⟨c.isnC, []⟩ :: st.segsC) (d2 : st.doneS = false → f.serverData = st.segsS) :
+    (d1 : st.doneC = false → f.clientData = ⟨wadd c.isnC 1, []⟩ :: st.segsC) (d2 : st.doneS = false → f.serverData = st.segsS) :
     Rel c (m.set c.client f) st :=
   { norev := by rw [FlowMap.get_set_ne _ _ _ _ (fun e => hne e.symm)]; exact hnorev
     done := fun a b => absurd ⟨a, b⟩ hnd
-    active := fun _ => ⟨f, FlowMap.get_set_eq _ _ _, e1, e2, e3, e4, p1, p2, d1, d2⟩ }
+    active := fun _ => ⟨f, FlowMap.get_set_eq _ _ _, e1, e2, e3, e4, i1, i2, p1, p2, d1, d2⟩ }
 
 theorem rel_erase (c : Conn) (m : FlowMap) (st : St) (f : TcpFlow) (hne : c.client ≠ c.client.rev)
     (hnorev : m.get c.client.rev = none) (hd : st.doneC = true ∧ st.doneS = true) :
@@ -179,15 +181,16 @@ set_option linter.unusedSimpArgs false
 variable {ρ σ : Type}
 
 theorem stepFound_plain (P : Parsers ρ σ) (m : FlowMap) (p : Pkt) (f : TcpFlow) (ic : Bool)
-    (hp : p.payload.isEmpty = false) (h1 : hasFlag p.flags FIN = false) (h2 : hasFlag p.flags RST = false) :
+    (hp : p.payload.isEmpty = false) (h1 : hasFlag p.flags FIN = false) (h2 : hasFlag p.flags RST = false)
+    (h3 : hasFlag p.flags SYN = false) :
     let k := if ic then p.key else p.key.rev
     let x := dispatch P f ic p
     (stepFound P m p f ic).request = x.2.1 ∧ (stepFound P m p f ic).response = x.2.2 ∧
     (stepFound P m p f ic).map =
       if x.1.clientParsed && x.1.serverParsed then (m.set k x.1).erase k else m.set k x.1 := by
   intro k x
-  unfold stepFound
-  simp only [hp, Bool.false_eq_true, if_false, h1, h2, Bool.or_self]
+  unfold stepFound noteSynAck
+  simp only [hp, Bool.false_eq_true, if_false, h1, h2, h3, Bool.or_self, Bool.false_and]
   split <;> exact ⟨rfl, rfl, rfl⟩
 
 theorem toPkt_fields (c : Conn) (d : DataPkt) :
@@ -204,9 +207,9 @@ theorem step_sim (P : Parsers ρ σ) (hm : MinLen P) (c : Conn) (hne : c.client 
     (hcapC : d.fromClient = true → totalLen st.segsC + d.payload.length ≤ maxBufferedHeadBytes)
     (hcapS : d.fromClient = false → totalLen st.segsS + d.payload.length ≤ maxBufferedHeadBytes)
     (hagC : d.payload.isEmpty = false → d.fromClient = true →
-      P.request (fullData (st.segsC ++ [⟨d.seq, d.payload⟩])) = P.request (stream c.isnC (st.segsC ++ [⟨d.seq, d.payload⟩])))
+      P.request (fullData (some c.isnC) (st.segsC ++ [⟨d.seq, d.payload⟩])) = P.request (stream c.isnC (st.segsC ++ [⟨d.seq, d.payload⟩])))
     (hagS : d.payload.isEmpty = false → d.fromClient = false →
-      P.response (fullData (st.segsS ++ [⟨d.seq, d.payload⟩])) = P.response (stream c.isnS (st.segsS ++ [⟨d.seq, d.payload⟩]))) :
+      P.response (fullData (some c.isnS) (st.segsS ++ [⟨d.seq, d.payload⟩])) = P.response (stream c.isnS (st.segsS ++ [⟨d.seq, d.payload⟩]))) :
     ((step P m (toPkt c d)).request, (step P m (toPkt c d)).response) = (specStep P c st d).1 ∧
     Rel c (step P m (toPkt c d)).map (specStep P c st d).2 := by
   obtain ⟨tp, tf, ts, tc, tsv⟩ := toPkt_fields c d
@@ -233,25 +236,33 @@ theorem step_sim (P : Parsers ρ σ) (hm : MinLen P) (c : Conn) (hne : c.client 
       | false =>
         simp only [Bool.false_eq_true, if_false, hdone.2, if_true]
         exact ⟨by first | trivial | rfl, ⟨hrel.norev, fun _ _ => hk, fun h => absurd (by simp [hdone.1, hdone.2]) h⟩⟩
-  · obtain ⟨f, hf, e1, e2, e3, e4, p1, p2, d1, d2⟩ := hrel.active hdone
+  · obtain ⟨f, hf, e1, e2, e3, e4, i1, i2, p1, p2, d1, d2⟩ := hrel.active hdone
+    have hS : hasFlag (toPkt c d).flags SYN = false := by rw [tf]; exact hfl.2.2
     cases h1 : d.payload.isEmpty with
     | true =>
-      -- no payload: the flow is found and left alone
-      have hs : step P m (toPkt c d) = { map := m } := by
+      -- no payload: the flow is found and left alone (no SYN, so no SYN-ACK note either)
+      have hns : ∀ ic, noteSynAck f ic (toPkt c d) = f := by
+        intro ic; unfold noteSynAck; simp [hS]
+      have hs : (step P m (toPkt c d)).request = none ∧ (step P m (toPkt c d)).response = none ∧
+          (step P m (toPkt c d)).map = m.set c.client f := by
         unfold step lookup
         cases hd : d.fromClient with
         | true =>
           rw [key_toPkt_client c d hd, hf]
           simp only []
-          unfold stepFound; simp [tp, h1]
+          obtain ⟨a, b, _, _, e⟩ := stepFound_empty P m (toPkt c d) f true (by rw [tp]; exact h1)
+          rw [hns, key_toPkt_client c d hd] at e
+          exact ⟨a, b, by simpa using e⟩
         | false =>
           rw [key_toPkt_server c d hd, hrel.norev, FlowKey.rev_rev, hf]
           simp only []
-          unfold stepFound; simp [tp, h1]
-      rw [hs]
+          obtain ⟨a, b, _, _, e⟩ := stepFound_empty P m (toPkt c d) f false (by rw [tp]; exact h1)
+          rw [hns, key_toPkt_server c d hd, FlowKey.rev_rev] at e
+          exact ⟨a, b, by simpa using e⟩
+      rw [hs.1, hs.2.1, hs.2.2]
       unfold specStep
       simp only [h1, if_true]
-      exact ⟨trivial, hrel⟩
+      exact ⟨trivial, rel_set c m st f hne hrel.norev hdone e1 e2 e3 e4 i1 (by first | exact i2 | rfl) p1 p2 d1 d2⟩
     | false =>
       have hpe : (toPkt c d).payload.isEmpty = false := by rw [tp]; exact h1
       have hF : hasFlag (toPkt c d).flags FIN = false := by rw [tf]; exact hfl.1
@@ -262,7 +273,7 @@ theorem step_sim (P : Parsers ρ σ) (hm : MinLen P) (c : Conn) (hne : c.client 
         have hkey := key_toPkt_client c d hd
         have hstep : step P m (toPkt c d) = stepFound P m (toPkt c d) f true := by
           unfold step lookup; rw [hkey, hf]
-        obtain ⟨r1, r2, r3⟩ := stepFound_plain P m (toPkt c d) f true hpe hF hR
+        obtain ⟨r1, r2, r3⟩ := stepFound_plain P m (toPkt c d) f true hpe hF hR hS
         simp only [if_true, hkey] at r3
         have hdisp : dispatch P f true (toPkt c d) =
             ((clientBranch P f ⟨d.seq, d.payload⟩).1, (clientBranch P f ⟨d.seq, d.payload⟩).2, none) := by
@@ -279,21 +290,24 @@ theorem step_sim (P : Parsers ρ σ) (hm : MinLen P) (c : Conn) (hne : c.client 
             | true => exact absurd ⟨hdc, h⟩ hdone
           rw [clientBranch_done P f _ (by rw [p1]; exact hdc)]
           simp only [if_true, p1, p2, hdc, hds, Bool.and_false, Bool.false_eq_true, if_false]
-          refine ⟨by first | trivial | rfl, rel_set c m _ f hne hrel.norev (by simp [hds]) e1 e2 e3 e4 (by rw [p1, hdc]) (by rw [p2, hds])
+          refine ⟨by first | trivial | rfl, rel_set c m _ f hne hrel.norev (by simp [hds]) e1 e2 e3 e4 i1 (by first | exact i2 | rfl) (by rw [p1, hdc]) (by rw [p2, hds])
             (by simp [hdc]) (fun _ => d2 hds)⟩
         | false =>
           have hcd := d1 hdc
           have hcap : totalLen (f.clientData ++ [⟨d.seq, d.payload⟩]) ≤ maxBufferedHeadBytes := by
             rw [hcd, totalLen_append]; simp only [totalLen]; have := hcapC hd; simp; omega
           rw [clientBranch_eval P hm f _ (by rw [p1]; exact hdc) hcap]
-          have hfd : fullData (f.clientData ++ [⟨d.seq, d.payload⟩]) = fullData (st.segsC ++ [⟨d.seq, d.payload⟩]) := by
-            rw [hcd, List.cons_append, fullData_cons_empty _ _ rfl]
+          have hfd : fullData (some f.clientIsn) (f.clientData ++ [⟨d.seq, d.payload⟩]) =
+              fullData (some c.isnC) (st.segsC ++ [⟨d.seq, d.payload⟩]) := by
+            rw [hcd, i1, List.cons_append]
+            unfold fullData baseOf
+            simp [List.filter_cons]
           rw [hfd, hagC h1 hd]
           simp only [Bool.false_eq_true, if_false]
           cases hr : P.request (stream c.isnC (st.segsC ++ [⟨d.seq, d.payload⟩])) with
           | none =>
             simp only [p1, hdc, Bool.false_and, Bool.false_eq_true, if_false]
-            refine ⟨by first | trivial | rfl, rel_set c m _ _ hne hrel.norev (by simp [hdc]) e1 e2 e3 e4 (by simp [p1, hdc]) (by simp [p2])
+            refine ⟨by first | trivial | rfl, rel_set c m _ _ hne hrel.norev (by simp [hdc]) e1 e2 e3 e4 i1 (by first | exact i2 | rfl) (by simp [p1, hdc]) (by simp [p2])
               (fun _ => by simp [hcd]) (fun h => by simpa using d2 h)⟩
           | some r =>
             simp only [Bool.true_and, p2]
@@ -303,14 +317,14 @@ theorem step_sim (P : Parsers ρ σ) (hm : MinLen P) (c : Conn) (hne : c.client 
               exact ⟨by first | trivial | rfl, rel_erase c m _ _ hne hrel.norev (by simp [hds])⟩
             | false =>
               simp only [Bool.false_eq_true, if_false]
-              refine ⟨by first | trivial | rfl, rel_set c m _ _ hne hrel.norev (by simp [hds]) e1 e2 e3 e4 rfl (by simp [p2, hds])
+              refine ⟨by first | trivial | rfl, rel_set c m _ _ hne hrel.norev (by simp [hds]) e1 e2 e3 e4 i1 (by first | exact i2 | rfl) rfl (by simp [p2, hds])
                 (by simp) (fun _ => by simpa using d2 hds)⟩
       | false =>
         obtain ⟨sa, sb⟩ := tsv hd
         have hkey := key_toPkt_server c d hd
         have hstep : step P m (toPkt c d) = stepFound P m (toPkt c d) f false := by
           unfold step lookup; rw [hkey, hrel.norev, FlowKey.rev_rev, hf]
-        obtain ⟨r1, r2, r3⟩ := stepFound_plain P m (toPkt c d) f false hpe hF hR
+        obtain ⟨r1, r2, r3⟩ := stepFound_plain P m (toPkt c d) f false hpe hF hR hS
         simp only [Bool.false_eq_true, if_false, hkey, FlowKey.rev_rev] at r3
         have hdisp : dispatch P f false (toPkt c d) =
             ((serverBranch P f ⟨d.seq, d.payload⟩).1, none, (serverBranch P f ⟨d.seq, d.payload⟩).2) := by
@@ -327,18 +341,18 @@ theorem step_sim (P : Parsers ρ σ) (hm : MinLen P) (c : Conn) (hne : c.client 
             | true => exact absurd ⟨h, hds⟩ hdone
           rw [serverBranch_done P f _ (by rw [p2]; exact hds)]
           simp only [if_true, p1, p2, hdc, hds, Bool.false_and, Bool.false_eq_true, if_false]
-          refine ⟨by first | trivial | rfl, rel_set c m _ f hne hrel.norev (by simp [hdc]) e1 e2 e3 e4 (by rw [p1, hdc]) (by rw [p2, hds])
+          refine ⟨by first | trivial | rfl, rel_set c m _ f hne hrel.norev (by simp [hdc]) e1 e2 e3 e4 i1 (by first | exact i2 | rfl) (by rw [p1, hdc]) (by rw [p2, hds])
             (fun _ => d1 hdc) (by simp [hds])⟩
         | false =>
           have hsd := d2 hds
           have hcap : totalLen (f.serverData ++ [⟨d.seq, d.payload⟩]) ≤ maxBufferedHeadBytes := by
             rw [hsd, totalLen_append]; simp only [totalLen]; have := hcapS hd; omega
-          rw [serverBranch_eval P hm f _ (by rw [p2]; exact hds) hcap, hsd, hagS h1 hd]
+          rw [serverBranch_eval P hm f _ (by rw [p2]; exact hds) hcap, hsd, i2, hagS h1 hd]
           simp only [Bool.false_eq_true, if_false]
           cases hr : P.response (stream c.isnS (st.segsS ++ [⟨d.seq, d.payload⟩])) with
           | none =>
             simp only [p2, hds, Bool.and_false, Bool.false_eq_true, if_false]
-            refine ⟨by first | trivial | rfl, rel_set c m _ _ hne hrel.norev (by simp [hds]) e1 e2 e3 e4 (by simp [p1]) (by simp [p2, hds])
+            refine ⟨by first | trivial | rfl, rel_set c m _ _ hne hrel.norev (by simp [hds]) e1 e2 e3 e4 i1 (by first | exact i2 | rfl) (by simp [p1]) (by simp [p2, hds])
               (fun h => by simpa using d1 h) (fun _ => by simp [hsd])⟩
           | some r =>
             simp only [Bool.and_true, p1]
@@ -348,7 +362,7 @@ theorem step_sim (P : Parsers ρ σ) (hm : MinLen P) (c : Conn) (hne : c.client 
               exact ⟨by first | trivial | rfl, rel_erase c m _ _ hne hrel.norev (by simp [hdc])⟩
             | false =>
               simp only [Bool.false_eq_true, if_false]
-              refine ⟨by first | trivial | rfl, rel_set c m _ _ hne hrel.norev (by simp [hdc]) e1 e2 e3 e4 (by simp [p1, hdc]) rfl
+              refine ⟨by first | trivial | rfl, rel_set c m _ _ hne hrel.norev (by simp [hdc]) e1 e2 e3 e4 i1 (by first | exact i2 | rfl) (by simp [p1, hdc]) rfl
                 (fun _ => by simpa using d1 hdc) (by simp)⟩
 
 end Huginn.HttpFlow
@@ -450,8 +464,9 @@ theorem handshake (P : Parsers ρ σ) (c : Conn) (hne : c.client ≠ c.client.re
     ∃ m, Rel c m {} ∧ ∀ rest, run P [] (synPkt c :: synAckPkt c :: rest) = (none, none) :: (none, none) :: run P m rest := by
   let flow0 : TcpFlow :=
     { clientIp := c.client.srcIp, serverIp := c.client.dstIp, clientPort := c.client.srcPort,
-      serverPort := c.client.dstPort, clientData := [⟨c.isnC, []⟩], serverData := [],
-      clientParsed := false, serverParsed := false }
+      serverPort := c.client.dstPort, clientData := [⟨wadd c.isnC 1, []⟩], serverData := [],
+      clientParsed := false, serverParsed := false, clientIsn := c.isnC, serverIsn := none }
+  let flow1 : TcpFlow := { flow0 with serverIsn := some c.isnS }
   have hk1 : (synPkt c).key = c.client := by unfold synPkt Pkt.key; rfl
   have hk2 : (synAckPkt c).key = c.client.rev := by unfold synAckPkt Pkt.key FlowKey.rev; rfl
   have s1 : step P [] (synPkt c) = { map := FlowMap.set [] c.client flow0, stored := some c.client, opened := true } := by
@@ -462,16 +477,26 @@ theorem handshake (P : Parsers ρ σ) (c : Conn) (hne : c.client ≠ c.client.re
       show hasFlag 2 SYN = true; decide
     simp only [this, if_true, hk1]
     rfl
-  have s2 : step P (FlowMap.set [] c.client flow0) (synAckPkt c) = { map := FlowMap.set [] c.client flow0 } := by
+  have s2 : (step P (FlowMap.set [] c.client flow0) (synAckPkt c)).request = none ∧
+      (step P (FlowMap.set [] c.client flow0) (synAckPkt c)).response = none ∧
+      (step P (FlowMap.set [] c.client flow0) (synAckPkt c)).map = (FlowMap.set [] c.client flow0).set c.client flow1 := by
     unfold step lookup
     rw [hk2, FlowMap.get_set_ne _ _ _ _ (fun e => hne e.symm), FlowKey.rev_rev, FlowMap.get_set_eq]
     simp only [FlowMap.get_nil]
-    unfold stepFound
-    have : (synAckPkt c).payload.isEmpty = true := rfl
+    obtain ⟨a, b, _, _, e⟩ := stepFound_empty P (FlowMap.set [] c.client flow0) (synAckPkt c) flow0 false rfl
+    refine ⟨a, b, ?_⟩
+    rw [e, hk2, FlowKey.rev_rev]
+    have : noteSynAck flow0 false (synAckPkt c) = flow1 := by
+      unfold noteSynAck
+      have h : hasFlag (synAckPkt c).flags SYN = true := by show hasFlag 18 SYN = true; decide
+      have hn : flow0.serverIsn.isNone = true := rfl
+      simp only [h, hn, Bool.not_false, Bool.and_self, if_true]
+      rfl
     simp [this]
-  refine ⟨FlowMap.set [] c.client flow0, ?_, ?_⟩
-  · exact rel_set c [] {} flow0 hne rfl (by simp) rfl rfl rfl rfl rfl rfl (fun _ => rfl) (fun _ => rfl)
+  refine ⟨(FlowMap.set [] c.client flow0).set c.client flow1, ?_, ?_⟩
+  · exact rel_set c _ {} flow1 hne (by rw [FlowMap.get_set_ne _ _ _ _ (fun e => hne e.symm)]; rfl) (by simp)
+      rfl rfl rfl rfl rfl rfl rfl rfl (fun _ => rfl) (fun _ => rfl)
   · intro rest
-    simp only [run, s1, s2]
+    simp only [run, s1, s2.1, s2.2.1, s2.2.2]
 
 end Huginn.HttpFlow
